@@ -157,7 +157,7 @@ var c16Excluded = map[string]string{
 	"giant-name": "one giant token", "giant-int": "one giant token", "giant-string": "one giant token", "giant-escapes": "one giant token",
 	"giant-blockstring": "one giant token", "blockstring-quotes": "one giant token", "giant-comment": "one giant token", "unterminated-string": "one giant token",
 	"comma-flood": "one run of ignored characters", "crlf-flood": "one run of ignored characters", "bom-flood": "one run of ignored characters",
-	"invalid-bytes": "fails at the first byte",
+	"invalid-bytes":              "fails at the first byte",
 	"nonascii-string-unexpected": "one giant token", "nonascii-blockstring-unexpected": "one giant token", "nonascii-string-after-fragment-name": "one giant token",
 	"sdl-nonascii-description-extend": "one giant token", "sdl-nonascii-two-descriptions": "one giant token",
 }
